@@ -225,3 +225,36 @@ Example C11_example_concrete :
   | _ => False
   end.
 Proof. vm_compute. repeat split; reflexivity. Qed.
+
+(* RenderStack: ident.Frag hands to AddType exactly the foreign packages of the type, whatever the tracker state
+   ([idarg_regs]: the paths in call order, read off the argument alone) ... *)
+Require Import Gengo.Proofs.RenderStackLeaves Gengo.Proofs.RenderStack.
+
+Theorem C11_registers_exact :
+  forall self can_backquote, cbq_hyp can_backquote ->
+  forall x g e a e',
+    renders x g -> in_domain all_tags self g = true ->
+    (ident_frag the_pick parse_c15 self can_backquote true true x e = Ok (a, e') ->
+       e' = add_all the_pick (idarg_regs self parse_c15 x) e
+       /\ forall e2, ext e' e2 -> ident_frag the_pick parse_c15 self can_backquote true true x e2 = Ok (a, e2))
+    /\ forall p, In p (idarg_regs self parse_c15 x) <-> In p (foreign_pkgs self g).
+Proof.
+  exact (fun self cbq Hc x g e a e' Hx Hd =>
+           conj (ident_frag_spec the_pick (pick_total the_pre the_std) parse_c15 self cbq true true x e a e')
+                (idarg_regs_exact self cbq Hc x g Hx Hd)).
+Qed.
+Print Assumptions C11_registers_exact.
+
+(* ... and in the generated file: against the table [e'] a writer ends with (C01_file_imports: table_ok, the own package
+   not in it), a type all of whose packages the file imports renders to an expression that leaves the table alone and
+   that, read through THAT import block, denotes the type. *)
+Theorem C11_type_leaf_denotes_in_file :
+  forall self can_backquote, cbq_hyp can_backquote ->
+  forall e' x g,
+    table_ok the_pre e' -> ~ In self (map fst e') ->
+    renders x g -> in_domain all_tags self g = true -> locals_exported self g = true ->
+    (forall p, In p (foreign_pkgs self g) -> In p (map fst e')) ->
+    exists a, ident_frag the_pick parse_c15 self can_backquote true true x e' = Ok (a, e') /\
+              resolve e' self a = Some (canon g).
+Proof. exact type_leaf_denotes. Qed.
+Print Assumptions C11_type_leaf_denotes_in_file.
